@@ -105,6 +105,8 @@ def run_case(col, pp, cfg, case):
     c = round(float(exact), cfg.P)
     Q = float(qexact)
     col.label(f"qfam:{qfam}")
+    if case.get('trace'):
+        col.label('stock:micromolar')
     if any(ref.subs[n].enzyme for n in sbase):
         col.label('stock:enzyme')
     # reference 2x2: unknowns phi (fraction of stock), y (solvent amount: base units or fraction of container)
@@ -184,7 +186,13 @@ def run_case(col, pp, cfg, case):
     if abs(got_q - Q) > tol * Q:
         col.report(f"create_solution_from/quantity-not-met/{tail}", {'target': Q, 'got': got_q}, case)
     got_c = ref.conc(obase, solute.name, num, den)
-    if abs(got_c - c) > (tol + 1.01 * cfg.grain / c) * c:
+    # the solute arrives as an aliquot rounded to one storage grain: relative to the amount the target denotes (a
+    # product holding a few grains of solute, or less than one, cannot meet a concentration more finely than that)
+    exp_solute = c * ref.size(obase, den) / solute.factor(num) if solute.factor(num) > 0 else 0.0
+    tol_c = tol + 2 * ref.grain_base(solute.name) / max(exp_solute, 1e-300)
+    if exp_solute < 1e4 * ref.grain_base(solute.name):
+        col.label('product-holds-under-1e4-grains-of-solute')
+    if abs(got_c - c) > (tol_c + 1.01 * cfg.grain / c) * c:
         col.report(f"create_solution_from/concentration-not-met/{tail}", {'target': c, 'got': got_c,
                                                                        'stock': ref.conc(sbase, solute.name, num, den)}, case)
     # (2) aliquots and ledger
@@ -240,10 +248,16 @@ def cases(draw, cfg):
     stock = []
     members = [(stock_liquid, 1.0), (solute, draw(st.floats(0.01, 0.3)))] + [(i, draw(st.floats(0.005, 0.2))) for i in extras]
     base = {}
+    # one stock in six is dilute: a micromolar solute (1e-6.5 .. 1e-4 mol/L), the everyday concentration of a
+    # biochemical working stock, where absolute tolerances written for molar magnitudes start to bite
+    trace = 10 ** draw(st.floats(-6.5, -4)) if draw(st.integers(0, 5)) == 0 else None
     for i, share in members:
         sub = subs[i]
         fam = draw(st.sampled_from(['U', 'g'] if sub.enzyme else ['L', 'g', 'mol']))
-        if sub.factor('L') > 0:
+        if trace is not None and i == solute:
+            amt = trace * vtot
+            fam = draw(st.sampled_from(['g', 'mol']))
+        elif sub.factor('L') > 0:
             amt = share * vtot / sub.factor('L')
             if sub.enzyme:
                 amt = min(amt, 2.0)
@@ -269,6 +283,8 @@ def cases(draw, cfg):
         solvent = {'s': draw(st.sampled_from(liquids if draw(st.integers(0, 5)) else solvent_subs))}
     num = draw(st.sampled_from(['mol', 'mol', 'g', 'L']))
     den = draw(st.sampled_from(['L', 'L', 'g', 'mol']))
+    if trace is not None and draw(st.integers(0, 4)):
+        num, den = draw(st.sampled_from(['mol', 'mol', 'g'])), 'L'
     cur = ref.conc(base, subs[solute].name, num, den)
     f = draw(st.floats(0.03, 0.97)) if draw(st.integers(0, 6)) else draw(st.floats(1.03, 1.5))
     conc = draw(basic.conc_spelling(cur * f, num, den, cfg.wv))
@@ -282,6 +298,8 @@ def cases(draw, cfg):
            'conc': conc.text, 'q': q.text}
     if len(stock) > 1 and draw(st.integers(0, 2)) == 0:
         out['aged'] = True
+    if trace is not None:
+        out['trace'] = True
     return out
 
 
